@@ -83,6 +83,8 @@ CLASSES = ["direct/elliptic", "direct/hyperbolic", "direct/dt>P", "direct/dt>100
           ["schedule/" + k for k in ["whfast:jacobi", "whfast:democraticheliocentric", "whfast:whds",
                                      "whfast:barycentric", "mercurius", "trace", "saba", "safe_mode0", "safe_mode1"]] + \
           ["schedule/saba:" + t for t in ["1", "2", "3", "4", "10,4", "8,6,4", "10,6,4", "h8,4,4", "h8,6,4", "h10,6,4"]] + \
+          ["schedule/corrector%d:%s" % (o_, c_) for o_ in (3, 5, 7, 11, 17) for c_ in ("jacobi", "barycentric")] + \
+          ["schedule/corrector2", "schedule/barycentric+corrector+N_active1"] + \
           ["schedule/steps_then_integrate:frac=%g" % x for x in (0.0, 1e-6, 0.3, 1.0, 1.7, 3.2)] + \
           ["%s/%s" % (a_, b_) for a_ in ("step", "multistep", "schedule")
            for b_ in ("gravity:basic", "gravity:compensated", "testparticle:m0", "testparticle:na1_t0",
@@ -960,7 +962,13 @@ sched_case = st.fixed_dictionaries({
     "u": S.floats(-0.9, 0.9),
     "inc": S.floats(0.0, math.pi), "Om": S.angles, "om": S.angles,
     "dtf": st.sampled_from([0.01, 0.03, 0.1, -0.03, -0.1]),
-    "scheme": st.one_of(st.sampled_from(SCHED_SCHEMES), st.sampled_from(["saba:" + t for t in SABA_PLAIN])),
+    "scheme": st.one_of(st.sampled_from(SCHED_SCHEMES[:4]), st.sampled_from(SCHED_SCHEMES[:4]),
+                        st.sampled_from(SCHED_SCHEMES[4:6]), st.sampled_from(["saba:" + t for t in SABA_PLAIN]),
+                        st.sampled_from(["saba:" + t for t in SABA_PLAIN])),
+    # first symplectic correctors (Jacobi and barycentric coordinates) and the second corrector (Jacobi): for a
+    # two-body problem every corrector is the identity up to rounding
+    "corr": st.sampled_from([0, 0, 3, 5, 7, 11, 17]),
+    "corr2": st.sampled_from([0, 0, 1]),
     "safe_mode": st.sampled_from([0, 0, 1]),
     "G": st.sampled_from(G_CHOICES),
     "qm": st.one_of(st.just(0.0), S.logfloats(1e-9, 1.0)),
@@ -980,6 +988,9 @@ def _sched_call(a):
     sch = a["scheme"]
     _set_tp(sim, a.get("tp"))
     _configure(sim, sch, a["safe_mode"], a.get("grav", "basic"))
+    if sch.startswith("whfast:"):
+        sim.ri_whfast.corrector = a.get("corr", 0)
+        sim.ri_whfast.corrector2 = a.get("corr2", 0)
     dt = a["dt"]
     sim.dt = dt
     enc = 0
@@ -1018,6 +1029,11 @@ def run_sched(c, ctx):
         hyp = False
         ecc["e_ell"] = min(c["e_ell"], 0.3)
         dtf = min(abs(dtf), 0.03)
+    corr = c.get("corr", 0) if sch in ("whfast:jacobi", "whfast:barycentric") else 0
+    corr2 = c.get("corr2", 0) if sch == "whfast:jacobi" else 0
+    if corr or corr2:
+        # the correctors' own Kepler pieces are up to 6.7 dt long: keep them inside the |piece| <= 0.2 P premise
+        dtf = math.copysign(min(abs(dtf), 0.03), dtf)
     o = dict(c, hyp=hyp, dtP=dtf, **ecc)
     r0, v0, mu, dt, e, f = realise(o)
     massive_ok = sch in ("whfast:jacobi", "whfast:whds") or sch.startswith("saba:")
@@ -1035,8 +1051,15 @@ def run_sched(c, ctx):
     ops = [list(x) for x in c["ops"]]
     arg = {"G": G, "particles": [star, plan], "scheme": sch, "safe_mode": c["safe_mode"], "dt": dt, "ops": ops}
     grav, tp = tp_opts(c, m1, sch, ctx)
-    arg.update(grav=grav, tp=tp)
-    what = "schedule %r through %s (safe_mode=%d)" % (ops, sch, c["safe_mode"])
+    arg.update(grav=grav, tp=tp, corr=corr, corr2=corr2)
+    if corr:
+        ctx.cls("corrector%d:%s" % (corr, sch.split(":")[1]))
+        if tp == "na1_t0" and sch == "whfast:barycentric":
+            ctx.cls("barycentric+corrector+N_active1")
+    if corr2:
+        ctx.cls("corrector2")
+    what = "schedule %r through %s (safe_mode=%d corrector=%d corrector2=%d %s %s)" % (
+        ops, sch, c["safe_mode"], corr, corr2, grav, tp)
     w = worker("sched", _sched_call)
     status, val = w.call(arg)
     if status != "ok":
@@ -1085,7 +1108,9 @@ def run_sched(c, ctx):
                 continue
             sp, sv = KM.propagate_sens([float(x) for x in rg], [float(x) for x in vg], mum, mT - tg, EPS * xs, EPS * vs)
             spos, svel = max(spos, sp), max(svel, sv)
-        npieces = 10 * (steps_done + len(ops) + 1)
+        # pieces per step / call: <= 10 for the scheme itself; a first corrector of order o is (o-1) operators Z of
+        # 3 Kepler pieces, applied and undone: 6(o-1); the second corrector 2 x 10 pieces, applied and undone: 40
+        npieces = (10 + 6 * max(0, corr - 1) + 40 * corr2) * (steps_done + len(ops) + 1)
         tpos = K_SCHED * npieces * spos
         tvel = K_SCHED * npieces * svel
         com1 = [com_r[k] + com_v[k] * mT for k in range(3)]
@@ -1127,7 +1152,7 @@ def subs(tier):
         Sub("step", run_step, strategy=step_case([k for k in SCHEMES if k != "whfast512"], G_CHOICES),
             quick=1200, thorough=40000, shards_quick=8, shards_thorough=16),
         Sub("multistep", run_multi, strategy=multi_case, quick=240, thorough=8000, shards_quick=8, shards_thorough=16),
-        Sub("schedule", run_sched, strategy=sched_case, quick=480, thorough=12000, shards_quick=8, shards_thorough=16),
+        Sub("schedule", run_sched, strategy=sched_case, quick=640, thorough=12000, shards_quick=8, shards_thorough=16),
         Sub("step512", run_step, strategy=step_case(["whfast512"], [1.0], w512=True), variant="avx512",
             quick=640, thorough=16000, shards_quick=4, shards_thorough=8),
     ]
